@@ -14,7 +14,7 @@ META = dict(
     explanation='The real rxsci code of parquet.dump_to_file (batch -> to_record / create_record -> _dump_parquet) and load_from_file runs over FakeArrow, a contract stub of the pyarrow calls it makes '
                 '(pa.array copies, RecordBatch.from_arrays holds columns, ParquetWriter.write appends the rows of the batch, ParquetFile.iter_batches yields the rows in order in chunks). '
                 'Row count N concrete per obligation, dump batch size and load batch size solver-chosen in 1..N+1, row values symbolic (int column, str column). Asserted: the file contains exactly the source rows, once each, in order - also when the same dump pipeline is subscribed a second time; '
-                'the writer is closed; load_from_file returns the rows equal to the source, for every load batch size. The stub is validated at the start of every run by pushing identical scenarios through the real pyarrow '
+                'the writer is closed - and, when the file is given as a path with open_obj, the file itself is closed - by the time completion is signalled; load_from_file returns the rows equal to the source, for every load batch size. The stub is validated at the start of every run by pushing identical scenarios through the real pyarrow '
                 '(incl. (rows, batch) = (2048, 1024), (5000, 999), snappy/zstd) and comparing the rows left in the file and the rows loaded.',
     bounds=dict(quick='N <= 8 rows, dump batch 1..N+1, load batch 1..N+1, 2 columns (int, str of length 1)', thorough='N <= 12 rows'),
     outside='pyarrow itself, compression codecs, nested struct / list columns, row_group_size, encryption (forwarded verbatim; the stub validator exercises the real library on a grid)',
@@ -54,23 +54,37 @@ def roundtrip(p):
         with Env():
             # the same source.pipe(dump_to_file(...)) observable is subscribed twice (re-export / retry): each run must write exactly the rows
             holder = FA.FFile()
-            obs_ = D.src(rows).pipe(P.dump_to_file(holder, FA.FSchema(['a', 'b']), batch_size=bs))
+            bypath = p.get('path', False)
+            opened = []
+
+            def wopen(name, mode='rb', **kw):
+                opened.append((name, mode))
+                holder.closed = False
+                return holder
+            target, kw = ('x.parquet', dict(open_obj=wopen)) if bypath else (holder, {})
+            obs_ = D.src(rows).pipe(P.dump_to_file(target, FA.FSchema(['a', 'b']), batch_size=bs, **kw))
             for sub in (1, 2):
                 holder.rows = []
                 holder.writes = []
                 holder.writer_closed = False
                 done = []
-                obs_.subscribe(on_error=lambda e: done.append(('ERR', repr(e))), on_completed=lambda: done.append('C'))
+                # at the moment completion is signalled the file must be complete and (when opened by path) closed
+                obs_.subscribe(on_error=lambda e: done.append(('ERR', repr(e))), on_completed=lambda: done.append(('C', holder.writer_closed, holder.closed, len(holder.rows))))
                 written = [dict(a=r[0], b=r[1]) for r in holder.rows]
-                if done != ['C'] or written != rows or not holder.writer_closed:
+                if len(done) != 1 or done[0][0] != 'C' or written != rows or not holder.writer_closed:
                     return fail(stage='dump_to_file', subscription=sub, rows=rows, dump_batch=bs, observed=written, writes=holder.writes, done=done, writer_closed=holder.writer_closed)
+                if not done[0][1] or done[0][3] != len(rows) or (bypath and not done[0][2]):
+                    return fail(stage='dump_to_file', problem='completion signalled before the file was complete / closed', done=done, by_path=bypath)
+            if bypath and opened != [('x.parquet', 'wb')] * 2:
+                return fail(stage='dump_to_file', problem='open_obj protocol', opened=opened)
             f = holder
             for w in f.writes:
                 if w > bs or w == 0:
                     return fail(stage='dump_to_file', problem='batch of %d rows written with batch_size %d' % (w, bs), writes=f.writes)
             got = []
             end = []
-            P.load_from_file(f, batch_size=lb).subscribe(on_next=got.append, on_error=lambda e: end.append(('ERR', repr(e))), on_completed=lambda: end.append('C'), scheduler=ImmediateScheduler())
+            src_, kw2 = ('x.parquet', dict(open_obj=lambda name, mode='rb', **k: f)) if bypath else (f, {})
+            P.load_from_file(src_, batch_size=lb, **kw2).subscribe(on_next=got.append, on_error=lambda e: end.append(('ERR', repr(e))), on_completed=lambda: end.append('C'), scheduler=ImmediateScheduler())
             if got != rows or end != ['C']:
                 return fail(stage='load_from_file', rows=rows, load_batch=lb, observed=got, end=end)
         return True
@@ -92,5 +106,7 @@ def obligations(tier, seed):
     q = tier == 'quick'
     for n in range(0, (8 if q else 12) + 1):
         obs.append(Ob(PROP, 'roundtrip', dict(n=n), budget=240 if q else 1500, bound=dict(rows=n, dump_batch='1..%d' % (n + 1), load_batch='1..%d' % (n + 1))))
+        if n <= (4 if q else 7):
+            obs.append(Ob(PROP, 'roundtrip', dict(n=n, path=True), budget=240 if q else 1500, bound=dict(rows=n, file='path + open_obj', dump_batch='1..%d' % (n + 1), load_batch='1..%d' % (n + 1))))
     obs.append(Ob(PROP, 'roundtrip', dict(n=3, _twin='reach'), budget=60, expect='refute'))
     return obs
